@@ -56,6 +56,9 @@ class C18(Prop):
             return [{"property": self.id, "world": w, "steps": steps}]
         w = {"stack": "fallback", "servers": servers, "nodes": nodes, "client_kwargs": ck,
              "per_cache_kwargs": per, "knobs": {"recv_size": rng.choice(gen.RECV_SIZES)}}
+        pickled = rng.random() < 0.1
+        if pickled:
+            ck["serde"] = {"$serde": {"kind": "pickle"}}     # cached values are Python objects, tuples among them
         pfx = codec.dec(ck.get("key_prefix", E(b"")))
         keys = [b"k1", "s2", b"n3"][:rng.randint(1, 3)]
         steps = []
@@ -67,7 +70,12 @@ class C18(Prop):
                 if matrix >> (ci * len(keys) + ki) & 1:
                     wk = pfx + (k.encode() if isinstance(k, str) else k)
                     val = b"%d" % (10 * ci + ki) if k == b"n3" else b"val-c%d-%d" % (ci, ki)
-                    steps.append({"t": "direct", "node": ci, "key": E(wk), "value": E(val)})
+                    st = {"t": "direct", "node": ci, "key": E(wk), "value": E(val)}
+                    if pickled and k != b"n3" and rng.random() < 0.6:
+                        import pickle as _p
+                        obj = rng.choice([(None, "payload-c%d" % ci), (None, None), [], 0, ("err", None), {"c": ci}])
+                        st["value"], st["flags"] = E(_p.dumps(obj, 2)), 1
+                    steps.append(st)
         for ci in range(1, nc):
             if rng.random() < 0.12:
                 steps.append({"t": "node", "id": ci, "health": rng.choice(["refuse", "eof", "blackhole"])})
@@ -76,6 +84,8 @@ class C18(Prop):
             steps.append({"t": "node", "id": 0, "health": rng.choice(["refuse", "reset", "blackhole", "unreach"])})
         for _ in range(rng.randint(4, 12)):
             m = rng.choice(WRITES + READS + READS)
+            if pickled and m in ("append", "prepend"):
+                m = "set"          # gluing raw bytes onto a pickled payload only manufactures undecodable items
             key = rng.choice(keys)
             a, k = [], {}
             if m in ("set", "add", "replace", "append", "prepend"):
@@ -275,15 +285,19 @@ class C18(Prop):
                                 expected=expect_visit))
                 continue
             if stop is not None and rec.outcome == "return":
+                serde = engine.make_serde(ck["serde"]) if ck.get("serde") else None
+
+                def val(k, it):
+                    return serde.deserialize(k, it[0], it[1]) if serde else it[0]
                 if m in ("get", "gets"):
                     it = snap[stop][wks[0]]
-                    want = it[0] if m == "get" else (it[0], b"%d" % it[3])
+                    want = val(keys[0], it) if m == "get" else (val(keys[0], it), b"%d" % it[3])
                 else:
                     want = {}
                     for k, x in zip(keys, wks):
                         if x in snap[stop]:
                             it = snap[stop][x]
-                            want[k] = it[0] if m == "get_many" else (it[0], b"%d" % it[3])
+                            want[k] = val(k, it) if m == "get_many" else (val(k, it), b"%d" % it[3])
                 if not model.results_equal(want, rec.value):
                     out.append(viol("read-returned-wrong-value", rec, want=repr(want)[:120], got=rec.enc_outcome()))
             if rec.outcome == "raise":
